@@ -10,7 +10,7 @@ from collections import Counter
 
 from . import ops
 from .classes import ABSENT, HarnessError, new_resource
-from .plain import Ref, Slice, dec, enc, is_plain, kind_of, plain
+from .plain import ordered_eq, Ref, Slice, dec, enc, is_plain, kind_of, plain
 
 
 class Mismatch(Exception):
@@ -111,8 +111,9 @@ def touched_children(kind, m, a, kw, n_before, model_out, real_out):
 
 class World:
     def __init__(self, ci, directory, initial=ABSENT, nres=1, check_outcome=True,
-                 check_resource=True, initial_docs=None, excl=()):
+                 check_resource=True, initial_docs=None, excl=(), ordered=False):
         self.ci = ci
+        self.ordered = ordered     # also compare dict key order (C03 "ordered" part only)
         self.excl = set(excl)      # active known-finding exclusions (by construction)
         self.excluded = 0
         self.poisoned = set()      # resources currently holding the other root kind
@@ -343,7 +344,8 @@ class World:
             return True
         before_doc = copy.deepcopy(self.docs[h.res]) if mut else None
         real = ops.real_apply(h.real, h.kind, m, a, kw, self._resolve_real)
-        model = ops.model_apply(cont, h.kind, m, a, kw, self._resolve_model, real_out=real)
+        model = ops.model_apply(cont, h.kind, m, a, kw, self._resolve_model,
+                                real_out=None if self.ordered else real)
         self.last = (real, model)
         self.events[("op", h.kind, m)] += 1
         if not model.ok:
@@ -366,7 +368,7 @@ class World:
             elif before_doc != self.docs[h.res]:
                 raise HarnessError(f"model mutated by a raising op {m} {a!r}")
             self.revalidate()
-        if self.check_outcome and not ops.same_outcome(h.kind, m, real, model):
+        if self.check_outcome and not ops.same_outcome(h.kind, m, real, model, ordered=self.ordered):
             raise Mismatch("outcome", step=s, real=real.brief(), model=model.brief(),
                            depth=len(h.path))
         if mut and self.check_resource:
@@ -404,6 +406,6 @@ class World:
                 raise Mismatch("final_read_raised", handle=i, path=list(h.path),
                                error=f"{type(e).__name__}: {str(e)[:160]}")
             exp = self.model_at(h)
-            if got != exp:
+            if got != exp or (self.ordered and not ordered_eq(got, exp)):
                 raise Mismatch("final_read", handle=i, path=list(h.path), got=got,
                                expected=copy.deepcopy(exp))
